@@ -9,9 +9,9 @@ namespace OsloPolicy
 abbrev Str := List Char
 
 /-- JSON-like values as they reach the library from callers (credentials, targets) and
-from policy files (rule values).  Containers and `opaque` carry the text Python's
+from policy files (rule values).  Containers and `other` carry the text Python's
 `str()` gives for them (supplied by the harness: it needs `repr` of strings and floats,
-which the model does not compute); `opaque` also carries its Python truthiness. -/
+which the model does not compute); `other` also carries its Python truthiness. -/
 inductive JVal where
   | null
   | bool (b : Bool)
@@ -19,7 +19,7 @@ inductive JVal where
   | str (s : Str)
   | arr (xs : List JVal) (text : Str)
   | obj (kvs : List (Str × JVal)) (text : Str)
-  | opaque (text : Str) (truthy : Bool)
+  | other (text : Str) (truthy : Bool)
 deriving Repr, Inhabited
 
 /-- Exceptions that can leave the modelled entry points.  A branch in which the Python
@@ -57,7 +57,7 @@ def JVal.pyStr : JVal → Str
   | .str s => s
   | .arr _ t => t
   | .obj _ t => t
-  | .opaque t _ => t
+  | .other t _ => t
 
 /-- Python truthiness `bool(v)`. -/
 def JVal.truthy : JVal → Bool
@@ -67,7 +67,7 @@ def JVal.truthy : JVal → Bool
   | .str s => !s.isEmpty
   | .arr xs _ => !xs.isEmpty
   | .obj kvs _ => !kvs.isEmpty
-  | .opaque _ b => b
+  | .other _ b => b
 
 /-- Association lists stand for Python dicts; `ainsert` keeps keys unique, so
 first-match lookup is `d[k]`. -/
